@@ -680,6 +680,8 @@ static std::vector<Scenario> publish_scenarios(uint32_t mon, int tier, uint32_t 
     { auto s = base("P2-qos2", {RUN(), PUB(2, 1, true, pp)}, fam, tier ? 3 : 2, mon); s.broker.ack_props = true; v.push_back(s);
       // PUBREC 0x10 (No matching subscribers) is a success code: the exchange goes on to PUBREL / PUBCOMP and the handler reports the PUBCOMP
       s.name = "P2-qos2-pubrec-0x10"; s.broker.pubrec_rc = 0x10; s.D = tier ? 2 : 1; v.push_back(s); }
+    // an inbound QoS 2 exchange uses the same packet id (both sides start at 1) while the client's own publishes are in flight
+    { auto s = base("P10-inbound-qos2-same-id", {RUN(), RECV(2), SUB({{"b/#", 2}}), BARRIER(), BPUB(2, 100), PUB(1, 1, false, pp), PUB(2, 2, true, pp)}, (fam | F_REORDER) & ~(F_WRSHORT | F_CHUNK), tier ? 2 : 1, mon); s.broker.ack_props = true; s.broker.puback_rc = 0x10; s.expect_all_success = false; v.push_back(s); }
     { auto s = base("P3-burst-121", {RUN(), PUB(1, 1), PUB(2, 2), PUB(1, 3)}, fam & ~(F_WRSHORT), tier ? 2 : 1, mon); v.push_back(s); }
     { auto s = base("P4-sequential-id-reuse", {RUN(), PUB(1, 1), BARRIER(), PUB(2, 2), BARRIER(), PUB(1, 3)}, fam & ~(F_WRSHORT | F_CHUNK | F_NOREPLY | F_LOSS | F_HS | F_CONN), tier ? 3 : 2, mon); v.push_back(s); }
     { auto s = base("P8-same-qos-id-reuse", {RUN(), PUB(1, 1), BARRIER(), PUB(1, 2), BARRIER(), PUB(2, 3), BARRIER(), PUB(2, 4)}, F_WR | F_REORDER | F_RDCUT | F_TAIL | F_DELAY | F_BCLOSE, tier ? 3 : 2, mon); s.broker.ack_props = true; v.push_back(s); }
